@@ -91,6 +91,22 @@ fn rerun(w: &Value) -> Option<Outcome> {
 
 fn search(unit: &str, tag: &str, tier: &str) -> Option<Value> {
     match unit {
+        // whole-file pins: the property's general sweeps
+        "c02_files" => c02::search(tag, tier),
+        "c03_files" => c03::search(tag, tier).or_else(|| c03r::search(tag, tier)),
+        "c04_files" => c04::search(tag, tier).or_else(|| c07::search(tag, tier)),
+        "c05_files" | "c06_files" => c06::search(tag, tier).or_else(|| c07::search(tag, tier)),
+        "c07_files" => c07::search(tag, tier).or_else(|| c06::search(tag, tier)),
+        "c08_files" => c08::search(tag, tier),
+        "c09_files" => c11::search(tag, tier).or_else(|| c09::search(tier)),
+        "c10_files" => c10::search(tag, tier).or_else(|| c10r::search(tier)),
+        "c11_files" => c11::search(tag, tier),
+        "c12_files" => c12::search("C12.header", tier).or_else(|| c12::search_lex(tier)).or_else(|| c12::search_yacc(tier)),
+        "c15_files" => c15::search(tag, tier).or_else(|| c15::search_tables(tier)).or_else(|| c15::search_codegen(tier)),
+        "c16_files" => c16::search(tag, tier),
+        "c17_files" => c17::search("all", tag, tier).or_else(|| c17::search_costs(tier)),
+        "c19_files" => c19::search("C19.span", tier).or_else(|| c19::search("C19.col.", tier)).or_else(|| c19::search("C19.wrap.", tier)).or_else(|| c19::search("C19.diag.", tier)),
+        "c20_files" => c20::search("C20.guard", tier).or_else(|| c20::search("C20.state", tier)),
         "c19_diag" => c19::search("C19.diag.pinned", tier),
         "c19_queries" | "c19_cols" | "c19_wrap" | "c19_feed" => c19::search(tag, tier),
         "c09_ids" => c09::search(tier),
